@@ -139,7 +139,14 @@ def read_ev(filename):
             while ll[i].find("{") < 0:  # possibly introduce termination criterion
                 i = i + 1
             if ll[i].find("}") >= 0:  # '{' and '}' on the same line
-                evecs = ll[i].strip().replace("{", "").replace("}", "")
+                evecs = (
+                    ll[i]
+                    .strip()
+                    .replace("{", "")
+                    .replace("}", "")
+                    .replace("(", "")
+                    .replace(")", "")
+                )
             else:
                 evecs = ""
                 while ll[i].find("}") < 0:
